@@ -848,8 +848,53 @@ def tuple_of_configurations_stream(ctx, res):
                             res.violate("C10:leak-in-document", "a document written with a mask contains the sensitive value of a configuration kept in a tuple by an untyped field",
                                         dict(case, fmt=fmt))
 
+def earlier_declarations_stream(ctx, res):
+    """What one field declares is its own: for every built-in field class, a field declared `sensitive=True` EARLIER in the process
+    (in another schema) and a field of the same class declared later without it — the later one is rendered exactly as without a
+    mask, the earlier one is masked; and the other way round (an earlier non-sensitive declaration does not un-mask a later
+    sensitive one). Catches options that leak from one declaration to the next through class-level state"""
+    import cincoconfig as cc
+    classes = [("StringField", lambda **kw: cc.StringField(**kw), "text"), ("IntField", lambda **kw: cc.IntField(**kw), 42), ("FloatField", lambda **kw: cc.FloatField(**kw), 2.5),
+               ("PortField", lambda **kw: cc.PortField(**kw), 8080), ("BoolField", lambda **kw: cc.BoolField(**kw), True), ("UrlField", lambda **kw: cc.UrlField(**kw), "http://example.com/x"),
+               ("HostnameField", lambda **kw: cc.HostnameField(**kw), "example.com"), ("IPv4AddressField", lambda **kw: cc.IPv4AddressField(**kw), "10.0.0.1"),
+               ("IPv4NetworkField", lambda **kw: cc.IPv4NetworkField(**kw), "10.0.0.0/8"), ("FilenameField", lambda **kw: cc.FilenameField(**kw), "some/file.txt"),
+               ("LogLevelField", lambda **kw: cc.LogLevelField(**kw), "info"), ("ApplicationModeField", lambda **kw: cc.ApplicationModeField(**kw), "production"),
+               ("BytesField", lambda **kw: cc.BytesField(**kw), b"bytes"), ("ListField", lambda **kw: cc.ListField(cc.StringField(), **kw), ["a", "b"]),
+               ("DictField", lambda **kw: cc.DictField(cc.StringField(), cc.IntField(), **kw), {"k": 1}), ("AnyField", lambda **kw: cc.AnyField(**kw), "anything")]
+    for name, mk, value in classes:
+        for first_sensitive in (True, False):
+            a = cc.Schema()
+            a.sec.first = mk(sensitive=True) if first_sensitive else mk()
+            b = cc.Schema()
+            b.sec.second = mk() if first_sensitive else mk(sensitive=True)
+            b.sec.third = mk(sensitive=False)
+            ca, cb = a(), b()
+            try:
+                ca.sec.first = value
+                cb.sec.second = value
+                cb.sec.third = value
+            except Exception:  # noqa
+                continue
+            for mask in ("*", "<hidden>"):
+                case = {"stream": "earlier-declarations", "class": name, "earlier_is_sensitive": first_sensitive, "mask": mask}
+                res.case(stable(case), kind="earlier-declarations")
+                plain_a, plain_b = ca.to_tree(), cb.to_tree()
+                ma, mb = ca.to_tree(sensitive_mask=mask), cb.to_tree(sensitive_mask=mask)
+                want_mask = mask if len(mask) != 1 else mask * len(str(value))
+                bad = []
+                for label, got, plain, sens in (("first", ma["sec"]["first"], plain_a["sec"]["first"], first_sensitive), ("second", mb["sec"]["second"], plain_b["sec"]["second"], not first_sensitive),
+                                                ("third", mb["sec"]["third"], plain_b["sec"]["third"], False)):
+                    if sens and got != want_mask:
+                        bad.append([label, "sensitive, rendered as", repr(got)[:40]])
+                    if not sens and (got != plain or type(got) is not type(plain)):
+                        bad.append([label, "not sensitive, rendered as", repr(got)[:40], "without a mask", repr(plain)[:40]])
+                if bad:
+                    res.violate("C10:nonsensitive-changed" if any(x[1].startswith("not") for x in bad) else "C10:leak-in-tree",
+                                "what an earlier declaration of the same field class said about `sensitive` changed how a later field is rendered under a mask", dict(case, differs=bad[:3]))
+
 def run(ctx, n_quick=150, n_thorough=5000):
     res = Result()
+    guard(res, "C10", earlier_declarations_stream, ctx, res)
     guard(res, "C10", tuple_of_configurations_stream, ctx, res)
     guard(res, "C10", extension_mask_stream, ctx, res)
     guard(res, "C10", lambda: P.run_stream(ctx, res, "C10", ctx.n(n_quick, n_thorough), oracle, gen_ops=gen_ops, ops_len=(3, 8), schema_gen=gen_schema))
